@@ -466,6 +466,74 @@ theorem find_skip_exact (arms : Arms) (p : PState) (cs : List Nat)
       rw [hrem]; simp only [List.length_drop]; omega
     rw [hn, skip_exact p _ hlen (by rw [hp, hls]; exact hbd.2), hrem]
 
+open Konst.Spec.Utf8 in
+/-- the trim_start_matches form removes WHOLE CHARACTERS only: on a valid remainder with valid literals the
+    spec's result is the encoding of a suffix of the remainder's chars -/
+private theorem trimStartSpec_cut (arms : Arms) (harms : ∀ a ∈ arms, ∃ ls, a.2 = encs ls) :
+    ∀ (n : Nat) (cs : List Nat), (encs cs).length = n → ∃ k, trimStartSpec arms (encs cs) = encs (cs.drop k) := by
+  intro n
+  induction n using Nat.strongRecOn with
+  | _ n ih =>
+    intro cs hn
+    rw [trimStartSpec]
+    cases h : firstPrefix arms (encs cs) with
+    | none => exact ⟨0, by simp⟩
+    | some a =>
+      dsimp only
+      by_cases hc : a.2.length = 0 ∨ (encs cs).length < a.2.length
+      · rw [dif_pos hc]; exact ⟨0, by simp⟩
+      · rw [dif_neg hc]
+        have hmem := List.mem_of_find?_eq_some h
+        have hpre : a.2 <+: encs cs := by
+          have := List.find?_some h
+          simpa [List.isPrefixOf_iff_prefix] using this
+        obtain ⟨ls, hls⟩ := harms a hmem
+        have hlne : ls ≠ [] := by
+          intro e; rw [hls, e] at hc; exact hc (Or.inl rfl)
+        have hb := Konst.Lemmas.Utf8.match_on_boundaries cs ls hlne 0 (by rw [List.drop_zero, ← hls]; exact hpre)
+        obtain ⟨k1, _, _, hdrop⟩ := Konst.Lemmas.Utf8.boundary_split cs _ hb.2
+        rw [Nat.zero_add, ← hls] at hdrop
+        rw [hdrop]
+        have hlt : (encs (cs.drop k1)).length < n := by
+          rw [← hdrop, List.length_drop]; omega
+        obtain ⟨k2, hk2⟩ := ih _ hlt (cs.drop k1) rfl
+        exact ⟨k1 + k2, by rw [hk2, List.drop_drop]⟩
+
+open Konst.Spec.Utf8 in
+/-- trim_start_matches form on valid input: the parser is advanced by exactly the bytes removed (start
+    offset + removed, end offset unchanged), `Parser::skip` never rounds -/
+theorem trim_start_exact (arms : Arms) (p : PState) (cs : List Nat)
+    (hcs : ∀ c ∈ cs, isScalar c = true) (hp : p.rem = encs cs)
+    (harms : ∀ a ∈ arms, ∃ ls, a.2 = encs ls) :
+    trimStartMatches arms p =
+      ⟨p.start + (p.rem.length - (trimStartSpec arms p.rem).length), trimStartSpec arms p.rem⟩ := by
+  rw [(trim_form_eq_repeat arms p).1]
+  obtain ⟨k, hk⟩ := trimStartSpec_cut arms harms _ cs rfl
+  unfold setStart
+  rw [hp, hk]
+  have hsplit := Konst.Lemmas.Utf8.encs_take_append_drop cs k
+  have hlen : (encs cs).length - (encs (cs.drop k)).length = (encs (cs.take k)).length := by
+    have := congrArg List.length hsplit
+    simp only [List.length_append] at this
+    omega
+  rw [hlen]
+  have hbnd : Konst.Utf8.isCharBoundaryBytes (encs cs) (encs (cs.take k)).length = true := by
+    have := (Konst.Lemmas.Utf8.boundary_iff cs hcs (encs (cs.take k)).length).mpr ⟨k, rfl⟩
+    simpa [Konst.Utf8.isCharBoundary] using this
+  have hle : (encs (cs.take k)).length ≤ (encs cs).length := by
+    have := congrArg List.length hsplit
+    simp only [List.length_append] at this
+    omega
+  have hsk := skip_exact ⟨p.start, encs cs⟩ (encs (cs.take k)).length hle hbnd
+  have hp' : p = ⟨p.start, encs cs⟩ := by cases p; simp_all
+  rw [hp'] at *
+  rw [hsk]
+  congr 1
+  have : (encs cs).drop (encs (cs.take k)).length = encs (cs.drop k) := by
+    conv => lhs; rw [← hsplit]
+    exact List.drop_left' rfl
+  exact this
+
 -- non-vacuity / sanity (kernel-evaluated)
 private def lit (s : String) : List Nat := s.toUTF8.toList.map (·.toNat)
 example : parseString ['"', 'a', '\\', 'n', '\\', 'x', '4', '1', '\\', 'u', '{', '1', '_', 'F', '6', '0', '0', '}',
